@@ -103,6 +103,12 @@ func Run(r *rt.Run) error {
 			Groups: [][]int{c.Times}})
 		nCover++
 	}
+	// --- group deletion and come-back (phased; idle waits, so they go first and spread over the workers)
+	nDelete := 0
+	for _, j := range deleteJobs(rand.New(rand.NewSource(r.Seed*7919+3)), r.Thorough()) {
+		add(j)
+		nDelete++
+	}
 	// --- exhaustive enumeration
 	specs := []enumSpec{{[]int{0, 1, 2, 3, 4, 5, 6, 8, 10}, 5}}
 	nRand, randMaxLen := 160, 120
@@ -211,12 +217,18 @@ func Run(r *rt.Run) error {
 	}
 	wg.Wait()
 	tasks, pts := cw.tasks, cw.pts
+	delTraces, inconclusive := 0, 0
 	cw.env.Close()
 	for _, w := range ws {
 		tasks += w.tasks
 		pts += w.pts
+		delTraces += w.delTraces
+		inconclusive += w.inconclusive
 		w.env.Close()
 	}
+	r.Extra["delete_comeback_tasks"] = nDelete
+	r.Extra["delete_comeback_group_traces"] = delTraces
+	r.Extra["delete_task_attempts_discarded_as_inconclusive"] = inconclusive
 	r.Extra["real_tasks_run"] = tasks
 	r.Extra["points_fed"] = pts
 	r.Extra["cover_inputs"] = nCover
@@ -233,7 +245,9 @@ func Run(r *rt.Run) error {
 		"(first time < every with align, = 0 otherwise: time-shift symmetry), up to 1500 such groups interleaved in one task "+
 		"(round robin / seeded random merge / time order); plus TLC's shortest inputs for every ring branch; plus seeded random long "+
 		"sequences (1-3 or 8 groups, repeats, gaps that empty the window, period/every up to 12); count windows periodCount 1..5 x "+
-		"everyCount 1..5 x fillPeriod for every length up to the bound. Non-trivial = at least 2 points and at least one emitted batch; "+
+		"everyCount 1..5 x fillPeriod for every length up to the bound; plus group deletion: barrier().idle(1s).delete(TRUE) in front of the "+
+		"window, phased histories (first life, every group deleted - awaited through the window node's working_cardinality -, come-back "+
+		"back to back / after another group's point / interleaved / alone, sometimes deleted twice) for time and count windows. Non-trivial = at least 2 points and at least one emitted batch; "+
 		"distinct by (configuration, timestamp sequence)", true)
 	return nil
 }
